@@ -24,9 +24,9 @@ def cli_env(pyc):
     return e
 
 
-def meson(args, pyc, timeout=180):
+def meson(args, pyc, timeout=180, stdin_text=None):
     return subprocess.run([PY, os.path.join(REPO, 'meson.py')] + list(args), env=cli_env(pyc), cwd='/',
-                          capture_output=True, text=True, timeout=timeout)
+                          capture_output=True, text=True, timeout=timeout, input=stdin_text)
 
 
 def split_args(s):
@@ -56,17 +56,43 @@ def split_args(s):
     return out
 
 
+_ESC = {'n': 10, 't': 9, 'r': 13, 'v': 11, 'f': 12, 'a': 7, 'b': 8, 'e': 27, '\\': 92, '"': 34, "'": 39}
+
+
+def unescape(body):
+    """strace's C-style escapes (\\303\\251, \\n, \\x7f, ...) -> str; the bytes are a UTF-8 path."""
+    out, i = bytearray(), 0
+    while i < len(body):
+        ch = body[i]
+        if ch != '\\' or i + 1 >= len(body):
+            out += ch.encode('utf-8', 'surrogateescape'); i += 1
+            continue
+        nx = body[i + 1]
+        if nx in '01234567':
+            j = i + 1
+            while j < len(body) and j < i + 4 and body[j] in '01234567':
+                j += 1
+            out.append(int(body[i + 1:j], 8) & 255); i = j
+        elif nx == 'x':
+            j = i + 2
+            while j < len(body) and j < i + 4 and body[j] in '0123456789abcdefABCDEF':
+                j += 1
+            out.append(int(body[i + 2:j] or '0', 16)); i = j
+        else:
+            out.append(_ESC.get(nx, ord(nx) & 255)); i += 2
+    return out.decode('utf-8', 'surrogateescape')
+
+
 def unq(a):
     a = a.strip()
     if a.startswith('"'):
-        body = a[1:a.rindex('"')]
-        return body.encode('latin-1', 'backslashreplace').decode('unicode_escape')
+        return unescape(a[1:a.rindex('"')])
     return None
 
 
 def fdpath(a):
     m = FDP.match(a.strip())
-    return m.group(2) if m else None
+    return unescape(m.group(2)) if m else None
 
 
 def parse_log(path):
@@ -158,20 +184,36 @@ def run_traced(log, args, pyc, pfiles=None, inject=None, timeout=300):
     return r
 
 
+def path_variants(p):
+    """the spellings under which meson writes a path into its files: raw bytes (pickles, quoted shell words),
+    ninja-escaped (build.ninja), JSON-escaped (intro files, compile_commands.json)."""
+    out = []
+    for v in (p, p.replace('$', '$$').replace(' ', '$ ').replace(':', '$:'), json.dumps(p)[1:-1], json.dumps(p, ensure_ascii=False)[1:-1]):
+        b = os.fsencode(v)
+        if b not in out:
+            out.append(b)
+    return out
+
+
 def relocate(src, dst):
-    """Copy build directory src to dst (same path length) and rewrite the embedded absolute
-    path, so that dst is what meson would have written had it run at dst."""
-    assert len(src) == len(dst), (src, dst)
+    """Copy build directory src to dst and rewrite the embedded absolute path (in every spelling), so that
+    dst is what meson would have written had it run at dst.  Both names must have the same style and byte
+    length: pickles carry byte-length prefixes."""
+    va, vb = path_variants(src), path_variants(dst)
+    assert len(va) == len(vb) and all(len(x) == len(y) for x, y in zip(va, vb)), (src, dst)
+    pairs = sorted(zip(va, vb), key=lambda t: -len(t[0]))
     shutil.copytree(src, dst, symlinks=True)
-    a, b = src.encode(), dst.encode()
     for root, dirs, files in os.walk(dst):
         for f in files:
             p = os.path.join(root, f)
             if os.path.islink(p):
                 continue
             data = open(p, 'rb').read()
-            if a in data:
+            new = data
+            for a, b in pairs:
+                new = new.replace(a, b)
+            if new != data:
                 st = os.stat(p)
                 with open(p, 'wb') as fh:
-                    fh.write(data.replace(a, b))
+                    fh.write(new)
                 os.utime(p, ns=(st.st_atime_ns, st.st_mtime_ns))
